@@ -1,3 +1,71 @@
-import Mqtt5V.Basic
+import Mqtt5V.Proofs.Sender
+import Mqtt5V.Proofs.Replies
+import Mqtt5V.Props.C11
+/-! # C05 — exactly-once, non-reentrant completion; cancel() drains (component core)
+
+`cancel()` = ping/sentry timers, channel, `replies.cancel_unanswered()`, `async_sender.cancel()`, connection lock,
+stream.  In the component models:
+* `replies.cancel_unanswered()` aborts every waiter exactly once and keeps none;
+* `async_sender.cancel()` aborts every queued request exactly once and keeps none;
+* `async_mutex.cancel()` aborts every live waiter (C11), none is granted afterwards;
+* the initiating calls never run a completion inline: `async_send` produces no completion at all in its own call,
+  `lock()` / `unlock()` / `cancel()` of the connection lock never run a handler inline (C11). -/
 namespace Mqtt5V.Props.C05
+open Mqtt5V.Model.Sender
+
+/-- `replies.cancel_unanswered()`: one `operation_aborted` per waiter, nothing left behind -/
+theorem replies_cancel_aborts_each_waiter_once (r : Model.Replies.R) :
+    (Model.Replies.step r .cancelUnanswered).2 = r.handlers.map (fun h => ⟨h.w, .aborted, 0⟩) ∧
+    (Model.Replies.step r .cancelUnanswered).1.handlers = [] := ⟨rfl, rfl⟩
+
+/-- `async_sender.cancel()`: one `operation_aborted` per queued request, queue emptied -/
+theorem sender_cancel_aborts_each_queued_once (s : S) :
+    (step s .cancel).2 = s.queue.map (fun r => .done r.id .aborted) ∧ (step s .cancel).1.queue = [] := ⟨rfl, rfl⟩
+
+/-- **never from inside the initiating call**: `async_send` itself completes nothing — its own call only ever hands a
+batch to the stream -/
+theorem send_completes_nothing_inline (s : S) (r : SReq) : ∀ e ∈ (step s (.send r)).2, ∃ ids, e = .wr ids := by
+  intro e he
+  simp only [step] at he
+  revert he
+  generalize ({ s with queue := s.queue ++ [{ r with awaits := r.awaits || r.throttled }] } : S) = t
+  unfold doWrite
+  split
+  · intro he; cases he
+  · split
+    · intro he; simp at he; exact ⟨_, he⟩
+    · split
+      · intro he; simp at he; exact ⟨_, he⟩
+      · simp only []
+        split
+        · intro he; cases he
+        · intro he; simp at he; exact ⟨_, he⟩
+
+/-- the connection lock never runs a completion inside `lock()`, `unlock()` or `cancel()` (from C11) -/
+theorem lock_calls_never_complete_inline (m : Model.Mutex.M) (w : Nat) :
+    (m.step (.lock w)).2 = [] ∧ (m.step .unlock).2 = [] ∧ (m.step .cancelAll).2 = [] :=
+  ⟨C11.lock_never_inline m w, (C11.unlock_cancel_never_inline m).1, (C11.unlock_cancel_never_inline m).2⟩
+
+/-- a request written successfully that awaits no reply is finished exactly once by that write completion, one that
+awaits a reply is not finished by it -/
+theorem write_completion_finishes_each_once (s : S) (b : List SReq) (h : s.inflight = some b) :
+    ∃ rest, (step s (.wdone .ok)).2 = (b.filter (fun r => !r.awaits)).map (fun r => Ev.done r.id .ok) ++ rest ∧
+      ∀ e ∈ rest, ∃ ids, e = .wr ids := by
+  simp only [step, h]
+  refine ⟨_, rfl, ?_⟩
+  intro e he
+  revert he
+  generalize ({ s with inflight := none, unanswered := s.unanswered ++ b.filter (·.awaits) } : S) = t
+  unfold doWrite
+  split
+  · intro he; cases he
+  · split
+    · intro he; simp at he; exact ⟨_, he⟩
+    · split
+      · intro he; simp at he; exact ⟨_, he⟩
+      · simp only []
+        split
+        · intro he; cases he
+        · intro he; simp at he; exact ⟨_, he⟩
+
 end Mqtt5V.Props.C05
